@@ -10,6 +10,7 @@ of these contracts is really covered by it.  Sites with no recognised guard are 
 site breaks this file); they are attacked by the exhaustive sweep of harness/c10.go, not proved.
 -/
 import GPy.C10.Proofs
+import GPy.C10.BindProofs
 import GPy.C10.Generated
 import GPy.C10.Expected
 namespace GPy.C10
@@ -294,6 +295,158 @@ set_option maxRecDepth 100000 in
 /-- index / slice expressions with a non-constant index that sit under no recognised guard, in total -/
 theorem index_obligations_open :
     (Generated.indexSites.map fun r => r.2.2.2.1 + r.2.2.2.2.2).sum = Expected.openIndexCount := by
+  decide
+
+
+/-! ## second round: receivers, MakeBool, RunFrame (models in Bind.lean) -/
+
+namespace Bind
+
+/-- **receiver_guarantee.**  The Go function of a Method stored in `T.Dict` only ever runs with a `self` whose Python
+type is a subtype of `T` – for EVERY callable value Python code can derive from it (attribute read on an instance, on a
+class, any number of explicit `__get__(i, o)` calls with arbitrary objects) and every argument list; in particular it
+never runs with `self = (*Module)(nil)`.  Any other use raises TypeError. -/
+theorem receiver_guarantee (sub : Sub) (T : Nat) (v : Val) (h : Reach sub T v) (args : List Obj) :
+    match invoke sub v args with
+    | .goFunc (.obj s) _ => sub s.pyType T = true
+    | .goFunc .module _ => False
+    | .raised _ => True := by
+  have hg := reach_good sub T v h
+  cases v with
+  | bound s m => simpa [invoke, Good] using hg
+  | meth m =>
+    obtain ⟨_, _, hoc⟩ := hg
+    simp only [invoke, methCall, hoc]
+    cases args with
+    | nil => simp
+    | cons a rest =>
+      simp only
+      split_ifs with hs
+      · trivial
+      · simpa using hs
+
+
+/-- with the representation hypothesis (`hrep`: an object whose Python type is a subtype of `T` is a value of the Go
+type whose `Type()` returns `T` – regenerated table `Generated.goTypeOf`; it is what the sweep explores by trying to
+subclass every built-in type) the assertion `self.(S)` of a discharged `receiver` site cannot fail -/
+theorem receiver_struct (sub : Sub) (T : Nat) (goTypeOfObj : Obj → Nat) (S : Nat)
+    (hrep : ∀ o : Obj, sub o.pyType T = true → goTypeOfObj o = S)
+    (v : Val) (h : Reach sub T v) (args : List Obj) (s : Obj) (n : Nat)
+    (hcall : invoke sub v args = .goFunc (.obj s) n) : goTypeOfObj s = S := by
+  have := receiver_guarantee sub T v h args
+  rw [hcall] at this
+  exact hrep s this
+
+/-- **module_function_self.**  A function of a module (print, input) always runs with `self` = its module: `__get__`
+never rebinds it (fix 56b876c) -/
+theorem module_function_self (sub : Sub) (v : Val) (h : ReachModule sub v) (args : List Obj) :
+    invoke sub v args = .goFunc .module args.length := by
+  rw [reachModule_is_fn sub v h]
+  rfl
+
+
+/-- why the raw dictionary entry must never reach Python code: called directly it would run with `(*Module)(nil)`.
+(py.TypeCall calls raw entries of the types in the MRO of a `*py.Type` value's type – object, type, user classes –
+none of which holds a Go Method: `Generated.sites` has no `receiver` guard registered on ObjectType / TypeType.) -/
+theorem raw_call_unsafe_witness (sub : Sub) : invoke sub (.meth rawTypeMethod) [] = .goFunc .module 0 := rfl
+
+
+/-- the accessors of a Property of a built-in type run on instances of that type only (fix 09ff1b2) -/
+theorem property_receiver_guarantee (sub : Sub) (T : Nat) (inst : Obj) :
+    match propAccess sub (some T) inst with
+    | .goFunc (.obj s) _ => sub s.pyType T = true
+    | .goFunc .module _ => False
+    | .raised _ => True := by
+  simp only [propAccess]
+  split_ifs with hs
+  · trivial
+  · simpa using hs
+
+
+/-- **makeBool_returns_bool.**  Whatever `M__bool__` / `M__len__` return, a successful `py.MakeBool` returns a
+`py.Bool`: the `b.(py.Bool)` of the four conditional-jump opcodes and of the import machinery cannot fail -/
+theorem makeBool_returns_bool (o : BObj) (b : Bool) (h : makeBool o = .obj b) : b = true :=
+  makeBool_returns_bool_aux o b h
+
+/-- the code before fix 6a3ddf8 did not have the property (no Go type of the tree exploited it) -/
+theorem makeBool_old_witness : makeBoolOld (.mk false (some (.val false)) .absent) = .obj false := rfl
+
+
+example : makeBool (.mk false (some (.val false)) .absent) = .err := rfl
+example : makeBool (.mk false (some .notImplemented) (.val (.mk false (some (.val true)) .absent))) = .obj true := rfl
+
+/-! ### runframe_error_is_exception -/
+
+/-- **runframe_error_is_exception (delivery).**  In a frame whose block stack holds no try block, an error RETURNED
+by an opcode handler – any error value – ends the frame and is delivered as RunFrame's error result, whatever
+instructions follow. -/
+theorem error_delivered (s : VmState) (e : Nat) (rest : List Handler) (hw : s.why = .not) (hb : NoCatch s.blocks) :
+    runFrame s (.err e :: rest) = .raised e := by
+  have hne : (unwind { s with why := .exception, curexc := some e }).why ≠ .not := by
+    simp [unwind, unwindBlocks_exc_nocatch _ hb]
+  rw [runFrame]
+  simp only [hw, step]
+  have hnn : (Why.not != Why.not) = false := by decide
+  simp only [hnn, Bool.false_eq_true, if_false]
+  rw [finish_after _ _ hne]
+  simp [unwind, unwindBlocks_exc_nocatch _ hb, finish]
+
+
+/-- … and inside a try block it is handed to the innermost handler instead: execution continues (`why = whyNot`),
+the pending exception is cleared, an EXCEPT_HANDLER block replaces the try block -/
+theorem error_caught_continues (s : VmState) (e : Nat) (pre post : List Block) (b : Block)
+    (hbl : s.blocks = pre ++ b :: post) (hpre : NoCatch pre) (hb : b = .setupExcept ∨ b = .setupFinally) :
+    step s (.err e) = .ok { s with why := .not, curexc := none, blocks := .exceptHandler :: post } := by
+  simp [step, unwind, hbl, unwindBlocks_exc_caught pre post b hpre hb]
+
+
+/-- a Go PANIC of a handler is not turned into an exception: it leaves RunFrame (there is no `recover()` in vm/, py/,
+stdlib/, repl/ or main.go – `Vm.CheckException` is never deferred).  The embedder must recover itself. -/
+theorem handler_panic_escapes (s : VmState) (rest : List Handler) (h : s.why = .not) :
+    runFrame s (.goPanic :: rest) = .goPanic := by
+  simp [runFrame, h, step]
+
+
+/-- **runframe_no_spurious_panic_partial.**  RunFrame's own `panic("vm: no result or exception")` /
+`panic("vm: result and exception")` are unreachable: over every instruction stream whose handlers return normally, return
+errors, return / yield values and push / pop blocks, the result is a value, an exception or a yield.  EXCLUDED
+(hence `_partial`): `break` / `continue` handlers, whose safety needs the compiler invariant that a loop block
+encloses them (C12's domain). -/
+theorem runframe_no_spurious_panic_partial (hs : List Handler) : ∀ (s : VmState), Inv s → (∀ h ∈ hs, Plain h) →
+    runFrame s hs ≠ .goPanic := by
+  induction hs with
+  | nil =>
+    intro s hi _
+    by_cases hw : s.why = .not
+    · simp [runFrame, hw]
+    · have hw' : (s.why == Why.not) = false := by simpa using hw
+      simp only [runFrame, hw']; exact finish_ok s hi hw
+  | cons h rest ih =>
+    intro s hi hp
+    by_cases hw : s.why = .not
+    · obtain ⟨s', hs', hi'⟩ := step_inv s h hi hw (hp h (by simp))
+      simp only [runFrame, hw, hs']
+      simpa using ih s' hi' (fun x hx => hp x (by simp [hx]))
+    · rw [finish_after s _ hw]; exact finish_ok s hi hw
+
+
+example : runFrame {} [.push .loop, .err 7, .ok] = .raised 7 := by decide
+example : runFrame {} [.push .setupExcept, .err 7, .setRet 3] = .returned 3 := by decide
+example : runFrame {} [.push .setupFinally, .setRet 3, .err 9] = .raised 9 := by decide
+example : runFrame {} [.ok, .goPanic, .setRet 1] = .goPanic := by decide
+/-- the exclusion is real: a `break` with no enclosing loop block would reach the panic -/
+theorem runframe_break_outside_loop_witness : runFrame {} [.setBreak] = .goPanic := by decide
+
+end Bind
+
+set_option maxRecDepth 100000 in
+/-- the regenerated table: every `receiver` / `moduleSelf` / `result` guard that is NOT discharged is listed in
+`Expected.contractNotDischarged` (with the format guards: `guarded_sites_safe`); and no Go Method is registered on
+`object` or `type`, the types `py.TypeCall` reads raw entries from -/
+theorem no_go_method_on_object_or_type :
+    (Generated.sites.filter fun s => match s.guard with
+      | .receiver reg _ _ _ => reg == "ObjectType" || reg == "TypeType"
+      | _ => false) = [] := by
   decide
 
 end GPy.C10
